@@ -6,7 +6,7 @@ from . import common, circ, wavecorr as wc
 PID = 'C07'
 TARGETS = ['KyupyVerif.Props.C07']
 RULE = ('random circuits x {c_reuse} x {strip_forks} x capacities: (a) certificate: the Lean checker levelIndepB on the REAL ops of every level '
-        '(operands resolved through the memory map for stripped branches, scratch-slot writers renamed apart) and exact correspondence of the Lean '
+        '(operands resolved through the memory map for stripped branches, scratch-slot writers renamed apart), the map certificate MapIn.check and the schedule certificate schedOKB (hypotheses of memory_any_schedule) on the REAL tables and a within-level permutation, and exact correspondence of the Lean '
         'levelisation with level_starts (via the SimOps model, C01/C08); (b) oracle: the rows of sim.ops are REALLY permuted inside every level '
         '(LogicSim m=2/8 and WaveSim) and the mock GPU launcher REALLY runs the (simulation, operation) threads of a level in random / reversed / '
         'sim-major order (WaveSimCuda with accumulators): all of c (outside the scratch slots), s and abuf must equal the canonical order. '
@@ -140,6 +140,25 @@ def cert(case):
         if o == so.tmp_idx: o = fresh; fresh += 1     # scratch writers are never read: rename them apart
         rows.append(','.join(str(x) for x in [int(r[0]), o] + [src(v) for v in r[2:6]]))
     ans = common.run_driver([f"levelsok {','.join(str(int(x)) for x in so.level_starts)} {'/'.join(rows)}"])[0]
+    # hypotheses of C07.memory_any_schedule on the REAL tables: the map certificate accepts them, and the kind of order the oracle
+    # below really executes (a permutation inside every level) is accepted by schedOKB; an order that moves an op across a level
+    # boundary is rejected
+    opsS = '/'.join(','.join(str(int(x)) for x in row[:6]) for row in so.ops)
+    rest = '|'.join([opsS, ','.join(str(int(x)) for x in so.level_starts), ','.join(str(int(x)) for x in so.c_locs),
+                     ','.join(str(int(x)) for x in so.c_caps), str(int(so.c_len))])
+    prng = random.Random(case['pseed'] + 1)
+    sched = []
+    for a, b in zip(so.level_starts, so.level_stops):
+        idx = list(range(int(a), int(b))); prng.shuffle(idx); sched += idx
+    bad = list(sched)
+    if len(so.level_starts) > 1:
+        a = int(so.level_starts[1]); bad[a - 1], bad[a] = bad[a], bad[a - 1]
+    out = common.run_driver([f'net {circ.dump_net(c)}', f"mapok {int(case['strip'])} 4 {rest}",
+                             f"schedok {int(case['strip'])} 4 {rest} {','.join(map(str, sched))}",
+                             f"schedok {int(case['strip'])} 4 {rest} {','.join(map(str, bad))}"])
+    if out[1] != 'ok': ans = f'map certificate on the real tables: {out[1]}'
+    elif out[2] != 'ok': ans = 'schedOKB rejects a permutation inside the levels'
+    elif len(so.level_starts) > 1 and out[3] != 'FAIL': ans = 'schedOKB accepts an order that crosses a level boundary'
     return ans, max((int(b) - int(a)) for a, b in zip(so.level_starts, so.level_stops))
 
 
@@ -166,7 +185,7 @@ def run(ck):
     oracle(ck, n, ck.tier == 'thorough')
     if ck.broken and not ck.violations: oracle(ck, n * 4, ck.tier == 'thorough')
     ck.assumptions += ['real GPU scheduling is represented by atomic per-thread steps of the mock launcher (no numba/CUDA in this sandbox)',
-                       'memory-level independence of the threads of a level rests on the map certificate of C08 (per instance)']
+                       'memory-level independence: theorem memory_any_schedule under the map certificate, which is evaluated on the real tables of every case (not proved for all circuits)']
     return ck.finish(RULE)
 
 
